@@ -31,6 +31,9 @@ RULES = {
     'ARM-CANCEL': 'a size-triggered flush cancels the pending timeout handle of that key (guard on configuration only)',
     'APPEND-THEN-TEST': 'the size test of a partition follows the append on every path (a batch cannot outgrow n)',
     'FLUSH-RESETS': 'a batching node removes from its element buffer what it emits, on the same path',
+    'ELEMENT-MEMBERSHIP': 'whether a key is present in a buffer of user elements is decided by `in` / `not in` (or a sentinel '
+                          'comparison), never by the truthiness or identity of the stored element: 0, "", None and interned '
+                          'values are elements too',
     'TICK-PERIOD': 'each cycle of a tick loop (timed_window, timed_window_unique) sleeps exactly once, unconditionally, for '
                    'self.interval, after having awaited its emission; self.interval is convert_interval(<the constructor argument>)',
     'META-MEMBERS': 'an emission built from an element buffer carries the content of that buffer\'s metadata twin',
@@ -1379,3 +1382,56 @@ def check_tick_period(ctx, R, classes):
         R.ob('TICK-PERIOD', ctx.construct(init), 'interval-field', ok,
              'self.interval is not exactly convert_interval(<constructor argument interval>), written once in __init__',
              ctx.where(init, init.node.lineno))
+
+
+def check_element_membership(ctx, R, classes):
+    """see RULES['ELEMENT-MEMBERSHIP']"""
+    for cls in classes:
+        if cls.module.name != 'streamz.core':
+            continue
+        ebufs = element_buffers(ctx, cls)
+        if not ebufs:
+            continue
+        for mname, fn in cls.methods.items():
+            if mname == '__init__':
+                continue
+            bad = None
+            n = 0
+            for node in own_nodes(fn.node):
+                tests = []
+                if isinstance(node, (ast.If, ast.While, ast.IfExp, ast.Assert)):
+                    tests.append(node.test)
+                for t in tests:
+                    stack = [t]
+                    while stack:
+                        e = stack.pop()
+                        if isinstance(e, ast.BoolOp):
+                            stack.extend(e.values)
+                            continue
+                        if isinstance(e, ast.UnaryOp) and isinstance(e.op, ast.Not):
+                            stack.append(e.operand)
+                            continue
+
+                        def stored_element(v):
+                            # self.buf[k] / self.buf.get(k) / self.buf.setdefault(k, x): the element stored under k
+                            if isinstance(v, ast.Subscript) and self_field(v) in ebufs and not isinstance(v.slice, ast.Slice):
+                                return True
+                            if isinstance(v, ast.Call) and isinstance(v.func, ast.Attribute) and v.func.attr in ('get', 'setdefault', 'pop') \
+                                    and self_field(v.func.value) in ebufs and isinstance(v.func.value, ast.Attribute):
+                                # a sentinel default compared afterwards is handled by the Compare case below
+                                return True
+                            return False
+                        if stored_element(e):
+                            n += 1
+                            bad = bad or (e, 'the truthiness of the stored element %s decides presence' % src(e)[:50])
+                        elif isinstance(e, ast.Compare) and len(e.ops) == 1 and isinstance(e.ops[0], (ast.Is, ast.IsNot)) \
+                                and (stored_element(e.left) or stored_element(e.comparators[0])) \
+                                and not any(isinstance(y, ast.Constant) for y in (e.left, e.comparators[0])):
+                            n += 1
+                            bad = bad or (e, 'the identity of the stored element (%s) decides presence' % src(e)[:60])
+                        elif isinstance(e, ast.Compare) and len(e.ops) == 1 and isinstance(e.ops[0], (ast.In, ast.NotIn)) \
+                                and self_field(e.comparators[0]) in ebufs:
+                            n += 1
+            if n:
+                R.ob('ELEMENT-MEMBERSHIP', ctx.construct(fn), 'presence-test', bad is None, bad[1] if bad else '',
+                     ctx.where(fn, bad[0].lineno) if bad else ctx.where(fn, fn.node.lineno), None, n)
